@@ -240,6 +240,13 @@ func (e *c39Entry) verdict(validBy []int) (string, string) {
 		}
 		seen[v] = true
 	}
+	for _, k := range e.Keys {
+		if pool[k].kind == "offcurve" {
+			// enough honest signatures, but the list also names a malformed key: whether that is still a
+			// proper m-of-n entry is not settled by the statement (counted only)
+			return "", "leading-m-valid-but-lists-offcurve-key"
+		}
+	}
 	return "accept", "leading-m-valid"
 }
 
